@@ -1,13 +1,175 @@
-"""Checker self-test: seeded AST mutations of the current tree (thorough tier).
+"""Checker self-test (thorough tier).
 
-Placeholder until the mutation corpus is built; reports zero variants.
+For every property a corpus of *seeded variants* of the current tree is built in
+a scratch directory outside /repo and /verif, analysed with the very same rules,
+and deleted:
+
+* breaking variants - one rule instance broken (guard deleted, operands
+  swapped, twin edited, table entry dropped, callee replaced): the rules of the
+  property must report a violation, and the report must come from one of the
+  expected rules (not from an ANALYSIS-ERROR);
+* benign variants - behaviour-preserving refactorings (renamed locals,
+  reordered independent guards, helper extraction, re-formatting): the rules
+  must stay silent.
+
+A variant whose anchor text is no longer present in the current tree is skipped
+(the tree under analysis may legitimately have changed); the self-test fails
+only if a variant that *applies* is judged wrongly, or if too few apply.
+Nothing of the analysed package is imported or executed.
 """
 
 from __future__ import annotations
 
+import ast
+import os
+import random
+import shutil
+import sys
+import tempfile
+import time
+from concurrent.futures import ProcessPoolExecutor
+from dataclasses import dataclass
+from pathlib import Path
 from typing import Any
 from typing import Dict
+from typing import List
+from typing import Optional
+from typing import Tuple
+
+HERE = Path(__file__).resolve().parent
+sys.path.insert(0, str(HERE))
 
 
-def run_selftest(prop: str, seed: int) -> Dict[str, Any]:
-    return {"variants": 0, "failures": [], "note": "mutation corpus not built yet"}
+@dataclass
+class Variant:
+    prop: str
+    name: str
+    kind: str  # "break" | "benign"
+    file: str  # relative to <repo>/jsonpath
+    old: str
+    new: str
+    expect: Tuple[str, ...] = ()  # rule ids, any of which must fire (break only)
+    occurrence: int = 0  # which occurrence of `old` (0-based); -1 = all
+
+
+def V(prop: str, name: str, kind: str, file: str, old: str, new: str, expect: Tuple[str, ...] = (), occurrence: int = 0) -> Variant:
+    return Variant(prop, name, kind, file, old, new, expect, occurrence)
+
+
+def corpus() -> List[Variant]:
+    from selftest_corpus import CORPUS
+
+    return CORPUS
+
+
+def _apply(v: Variant, root: Path) -> bool:
+    path = root / "jsonpath" / v.file
+    src = path.read_text()
+    n = src.count(v.old)
+    if n == 0:
+        return False
+    if v.occurrence == -1:
+        out = src.replace(v.old, v.new)
+    else:
+        if v.occurrence >= n:
+            return False
+        idx = -1
+        for _ in range(v.occurrence + 1):
+            idx = src.index(v.old, idx + 1)
+        out = src[:idx] + v.new + src[idx + len(v.old):]
+    try:
+        ast.parse(out)
+    except SyntaxError as err:
+        raise RuntimeError(f"variant {v.prop}/{v.name} does not parse: {err}") from err
+    path.write_text(out)
+    return True
+
+
+def _run_one(args: Tuple[Variant, str]) -> Dict[str, Any]:
+    v, repo_root = args
+    tmp = Path(tempfile.mkdtemp(prefix="verif-selftest-"))
+    try:
+        shutil.copytree(Path(repo_root) / "jsonpath", tmp / "jsonpath", ignore=shutil.ignore_patterns("__pycache__"))
+        try:
+            applied = _apply(v, tmp)
+        except RuntimeError as err:
+            return {"variant": f"{v.prop}/{v.name}", "status": "error", "detail": str(err)}
+        if not applied:
+            return {"variant": f"{v.prop}/{v.name}", "status": "skipped", "detail": "anchor text not present"}
+        os.environ["VERIF_REPO"] = str(tmp)
+        from rules import Ctx
+        from rules import rules_for
+        from sa.loader import AnalysisError
+        from sa.loader import Repo
+
+        findings: List[str] = []
+        err_txt: Optional[str] = None
+        try:
+            ctx = Ctx(Repo(tmp))
+            for fn in rules_for(v.prop):
+                rr = fn(ctx)
+                rr.check_floor()
+                findings.extend(f"{f.rule} {f.qualname}: {f.construct}" for f in rr.findings)
+        except AnalysisError as err:
+            err_txt = str(err)
+        except Exception as err:  # noqa: BLE001
+            err_txt = f"crash: {err!r}"
+        fired = sorted({f.split(" ", 1)[0] for f in findings})
+        if v.kind == "break":
+            if err_txt is not None and not findings:
+                ok, why = False, f"ANALYSIS-ERROR instead of a violation: {err_txt}"
+            elif not findings:
+                ok, why = False, "not reported"
+            elif v.expect and not (set(fired) & set(v.expect)):
+                ok, why = False, f"reported by {fired}, expected one of {list(v.expect)}"
+            else:
+                ok, why = True, f"reported by {fired}"
+        else:
+            if err_txt is not None:
+                ok, why = False, f"ANALYSIS-ERROR on a benign variant: {err_txt}"
+            elif findings:
+                ok, why = False, f"false alarm: {findings[:2]}"
+            else:
+                ok, why = True, "silent"
+        return {"variant": f"{v.prop}/{v.name}", "kind": v.kind, "status": "ok" if ok else "FAILED", "detail": why}
+    finally:
+        shutil.rmtree(tmp, ignore_errors=True)
+
+
+def run_selftest(prop: Optional[str], seed: int, jobs: int = 16) -> Dict[str, Any]:
+    from sa.loader import repo_root
+
+    t0 = time.time()
+    items = [v for v in corpus() if prop is None or v.prop == prop]
+    rnd = random.Random(seed)
+    rnd.shuffle(items)
+    root = str(repo_root())
+    results: List[Dict[str, Any]] = []
+    if items:
+        with ProcessPoolExecutor(max_workers=min(jobs, max(1, len(items)))) as ex:
+            results = list(ex.map(_run_one, [(v, root) for v in items]))
+    failures = [f"{r['variant']}: {r['detail']}" for r in results if r["status"] in ("FAILED", "error")]
+    applied = [r for r in results if r["status"] in ("ok", "FAILED")]
+    skipped = [r["variant"] for r in results if r["status"] == "skipped"]
+    if items and len(applied) * 2 < len(items):
+        failures.append(f"only {len(applied)} of {len(items)} seeded variants apply to the current tree")
+    return {
+        "variants": len(items),
+        "applied": len(applied),
+        "breaking_detected": sum(1 for r in applied if r.get("kind") == "break" and r["status"] == "ok"),
+        "benign_silent": sum(1 for r in applied if r.get("kind") == "benign" and r["status"] == "ok"),
+        "skipped": skipped,
+        "failures": failures,
+        "results": results,
+        "wall_s": round(time.time() - t0, 2),
+    }
+
+
+if __name__ == "__main__":
+    p = sys.argv[1] if len(sys.argv) > 1 and sys.argv[1] != "all" else None
+    out = run_selftest(p, int(os.environ.get("VERIF_SEED", "0") or 0))
+    for r in sorted(out["results"], key=lambda r: r["variant"]):
+        print(f"{r['status']:8} {r['variant']:45} {r.get('detail', '')[:150]}")
+    print(f"{out['applied']}/{out['variants']} applied, {out['breaking_detected']} breaking detected, "
+          f"{out['benign_silent']} benign silent, {len(out['failures'])} failures, {out['wall_s']}s")
+    sys.exit(2 if out["failures"] else 0)
